@@ -269,6 +269,22 @@ def alt_targets(op, req):
     if p2 != path:
         out.append(('unknown-entity', Req(req['method'], p2, req['version'],
                                           req['body'], roles=req['roles'])))
+    # creating requests aimed at what exists already (create-or-confirm
+    # routes answer success without creating anything)
+    existing = None
+    body = req['body']
+    if op == ('PUT', '/traits/{name}'):
+        existing = ('/traits/CUSTOM_T1', body)
+    elif op == ('PUT', '/resource_classes/{name}'):
+        existing = ('/resource_classes/CUSTOM_A', body)
+    elif op == ('POST', '/resource_classes'):
+        existing = (path, {'name': 'CUSTOM_A'})
+    elif op == ('POST', '/resource_providers'):
+        existing = (path, {'name': 'again', 'uuid': R})
+    if existing:
+        out.append(('existing-entity', Req(
+            req['method'], existing[0], req['version'], existing[1],
+            roles=req['roles'])))
     if '/allocations/' in path:
         out.append(('consumer-without-allocations', Req(
             req['method'], '/allocations/%s' % K3, req['version'],
